@@ -78,6 +78,7 @@ static int lit_reply_kind (const char *s)
   return 0;
 }
 
+#ifndef C08_REAL_STRINGS
 /* ------------------------------------------------------------------------------------------
  * DBusString model.  Representation inside the (real) DBusRealString record:
  *   valid      typestate: 1 between _dbus_string_init and _dbus_string_free
@@ -412,6 +413,9 @@ int g_contains_calls; _Bool g_allowed_answer;
 dbus_bool_t _dbus_string_array_contains (const char **array, const char *str)
 { PRE (array != NULL && str != NULL, "_dbus_string_array_contains"); g_contains_calls++; g_allowed_answer = nondet_bool (); return g_allowed_answer; }
 
+#else  /* the real dbus/dbus-string.c is linked (B units) */
+#define STR_PRE(s, what) ((void) 0)
+#endif
 /* ------------------------------------------------------------------------------------------
  * DBusError (dbus-errors.c): name == NULL <=> not set
  * ------------------------------------------------------------------------------------------ */
@@ -437,6 +441,7 @@ struct DBusCredentials { int refcount; dbus_uid_t unix_uid; dbus_pid_t pid; int 
 #define CRED_SUPERSET(c, s) (((s)->pid == DBUS_PID_UNSET || (s)->pid == (c)->pid) && ((s)->unix_uid == DBUS_UID_UNSET || (s)->unix_uid == (c)->unix_uid) && \
    ((s)->gids == 0 || (s)->gids == (c)->gids) && ((s)->sid == 0 || (s)->sid == (c)->sid) && ((s)->label == 0 || (s)->label == (c)->label) && ((s)->adt == 0 || (s)->adt == (c)->adt))
 #define CRED_LIVE(c) ((c) != NULL && (c)->refcount > 0)
+#define CRED_EQ(x, y) ((x)->unix_uid == (y)->unix_uid && (x)->pid == (y)->pid && (x)->gids == (y)->gids && (x)->sid == (y)->sid && (x)->label == (y)->label && (x)->adt == (y)->adt)
 static void cred_havoc (DBusCredentials *c)
 { c->refcount = 1; c->unix_uid = nondet_ulong (); c->pid = nondet_ulong (); c->gids = nondet_int (); c->sid = nondet_int (); c->label = nondet_int (); c->adt = nondet_int ();
   __CPROVER_assume (c->gids >= 0 && c->sid >= 0 && c->label >= 0 && c->adt >= 0); }
@@ -529,18 +534,18 @@ dbus_uid_t _dbus_credentials_get_unix_uid (DBusCredentials *credentials) { PRE (
  *  desired identity provided during authentication" — spec: "An authorization identity consisting entirely
  *  of ASCII decimal digits represents a numeric user ID ... Non-numeric ... login name ... normalized to the
  *  corresponding numeric user ID."  Result (ASSUMED, user database): some uid is added, or an error. */
-int g_add_from_user_calls;
+int g_add_from_user_calls; _Bool g_userdb_ok; dbus_uid_t g_userdb_uid;   /* what the user database answered last */
 dbus_bool_t _dbus_credentials_add_from_user (DBusCredentials *credentials, const DBusString *username, DBusCredentialsAddFlags flags, DBusError *error)
 {
   PRE (CRED_LIVE (credentials), "_dbus_credentials_add_from_user"); STR_PRE (username, "_dbus_credentials_add_from_user");
-  g_add_from_user_calls++;
+  g_add_from_user_calls++; g_userdb_ok = 0;
 #ifdef VERIF_NO_USERDB_OOM
   if (nondet_bool ()) { model_set_error (error, 0); return FALSE; }
 #else
   if (nondet_bool ()) { model_set_error (error, nondet_bool ()); return FALSE; }
 #endif
   dbus_uid_t u = nondet_ulong (); __CPROVER_assume (u != DBUS_UID_UNSET);
-  credentials->unix_uid = u;
+  credentials->unix_uid = u; g_userdb_ok = 1; g_userdb_uid = u;
   return TRUE;
 }
 #endif
